@@ -1,5 +1,6 @@
 import JediModel.Proto
 import JediModel.Model.Scopes
+import JediModel.Props.C03
 open Lean Proto JediModel.Scopes
 
 def parseKind : Nat → Kind
@@ -26,7 +27,8 @@ def handle (j : Json) : Json :=
     jobj [
       ("wf", jbool (WF p)),
       ("goto", jarr ((List.range n).map fun i => jarr ((goto p i).map jnat))),
-      ("var", jarr ((List.range n).map fun i => jnat (varOf p i)))]
+      ("var", jarr ((List.range n).map fun i => jnat (varOf p i))),
+      ("covered", jarr ((List.range n).map fun i => jbool (JediModel.Props.C03.CoveredUse p i)))]
   | op => jobj [("error", jstr ("unknown op " ++ op))]
 
 def main : IO Unit := Proto.run handle
